@@ -670,48 +670,7 @@ func parserWalk(msg []byte) (*dm.Message, error) {
 			if err != nil {
 				return nil, err
 			}
-			var b dm.ResourceBody
-			switch h.Type {
-			case dm.TypeA:
-				r, e := p.AResource()
-				b, err = &r, e
-			case dm.TypeAAAA:
-				r, e := p.AAAAResource()
-				b, err = &r, e
-			case dm.TypeNS:
-				r, e := p.NSResource()
-				b, err = &r, e
-			case dm.TypeCNAME:
-				r, e := p.CNAMEResource()
-				b, err = &r, e
-			case dm.TypePTR:
-				r, e := p.PTRResource()
-				b, err = &r, e
-			case dm.TypeMX:
-				r, e := p.MXResource()
-				b, err = &r, e
-			case dm.TypeTXT:
-				r, e := p.TXTResource()
-				b, err = &r, e
-			case dm.TypeSOA:
-				r, e := p.SOAResource()
-				b, err = &r, e
-			case dm.TypeSRV:
-				r, e := p.SRVResource()
-				b, err = &r, e
-			case dm.TypeOPT:
-				r, e := p.OPTResource()
-				b, err = &r, e
-			case dm.TypeSVCB:
-				r, e := p.SVCBResource()
-				b, err = &r, e
-			case dm.TypeHTTPS:
-				r, e := p.HTTPSResource()
-				b, err = &r, e
-			default:
-				r, e := p.UnknownResource()
-				b, err = &r, e
-			}
+			b, err := typedBody(&p, h)
 			if err != nil {
 				return nil, err
 			}
@@ -719,6 +678,150 @@ func parserWalk(msg []byte) (*dm.Message, error) {
 		}
 	}
 	return m, nil
+}
+
+// typedBody calls the typed XResource method that matches the header type.
+func typedBody(p *dm.Parser, h dm.ResourceHeader) (dm.ResourceBody, error) {
+	switch h.Type {
+	case dm.TypeA:
+		r, e := p.AResource()
+		return &r, e
+	case dm.TypeAAAA:
+		r, e := p.AAAAResource()
+		return &r, e
+	case dm.TypeNS:
+		r, e := p.NSResource()
+		return &r, e
+	case dm.TypeCNAME:
+		r, e := p.CNAMEResource()
+		return &r, e
+	case dm.TypePTR:
+		r, e := p.PTRResource()
+		return &r, e
+	case dm.TypeMX:
+		r, e := p.MXResource()
+		return &r, e
+	case dm.TypeTXT:
+		r, e := p.TXTResource()
+		return &r, e
+	case dm.TypeSOA:
+		r, e := p.SOAResource()
+		return &r, e
+	case dm.TypeSRV:
+		r, e := p.SRVResource()
+		return &r, e
+	case dm.TypeOPT:
+		r, e := p.OPTResource()
+		return &r, e
+	case dm.TypeSVCB:
+		r, e := p.SVCBResource()
+		return &r, e
+	case dm.TypeHTTPS:
+		r, e := p.HTTPSResource()
+		return &r, e
+	}
+	r, e := p.UnknownResource()
+	return &r, e
+}
+
+// execWalk drives the record-level Parser API under a script: one step per record,
+// p = X(), s = SkipX(), h = XHeader()+typed XResource(), k = XHeader()+SkipX(); default p.
+func execWalk(b []byte, script string, o *vu.Out) string {
+	if script == "-" {
+		script = ""
+	}
+	res := vu.Catch(func() string {
+		var p dm.Parser
+		if _, err := p.Start(b); err != nil {
+			return "err " + tag(err)
+		}
+		var sb strings.Builder
+		si := 0
+		step := func() byte {
+			if si < len(script) {
+				return script[si]
+			}
+			return 'p'
+		}
+		for {
+			var err error
+			switch step() {
+			case 'p', 'h':
+				var q dm.Question
+				if q, err = p.Question(); err == nil {
+					fmt.Fprintf(&sb, " Q %s %d %d", hexName(q.Name), q.Type, q.Class)
+				}
+			default:
+				if err = p.SkipQuestion(); err == nil {
+					sb.WriteString(" S")
+				}
+			}
+			if err == dm.ErrSectionDone {
+				break
+			}
+			if err != nil {
+				return "err " + tag(err)
+			}
+			si++
+		}
+		type api struct {
+			parse  func() (dm.Resource, error)
+			header func() (dm.ResourceHeader, error)
+			skip   func() error
+		}
+		for _, a := range []api{{p.Answer, p.AnswerHeader, p.SkipAnswer}, {p.Authority, p.AuthorityHeader, p.SkipAuthority},
+			{p.Additional, p.AdditionalHeader, p.SkipAdditional}} {
+			for {
+				var err error
+				switch step() {
+				case 'p':
+					var r dm.Resource
+					if r, err = a.parse(); err == nil {
+						sb.WriteString(" R")
+						dumpResources2(&sb, r)
+					}
+				case 'h':
+					var h dm.ResourceHeader
+					if h, err = a.header(); err == nil {
+						var body dm.ResourceBody
+						if body, err = typedBody(&p, h); err == nil {
+							sb.WriteString(" R")
+							dumpResources2(&sb, dm.Resource{Header: h, Body: body})
+						}
+					}
+				case 's':
+					if err = a.skip(); err == nil {
+						sb.WriteString(" S")
+					}
+				default:
+					var h dm.ResourceHeader
+					if h, err = a.header(); err == nil {
+						if err = a.skip(); err == nil {
+							fmt.Fprintf(&sb, " H %s %d %d %d %d", hexName(h.Name), h.Type, h.Class, h.TTL, h.Length)
+						}
+					}
+				}
+				if err == dm.ErrSectionDone {
+					break
+				}
+				if err != nil {
+					return "err " + tag(err)
+				}
+				si++
+			}
+		}
+		return fmt.Sprintf("ok %d%s", dm.VerifParserOff(&p), sb.String())
+	})
+	if res == "panic" {
+		o.Fail("panic", fmt.Sprintf("Parser walk %q panicked on %x", script, b))
+	}
+	return res
+}
+
+func dumpResources2(sb *strings.Builder, r dm.Resource) {
+	h := &r.Header
+	fmt.Fprintf(sb, " %s %d %d %d %d", hexName(h.Name), h.Type, h.Class, h.TTL, h.Length)
+	dumpBody(sb, r.Body)
 }
 
 // oracleSkipParse: at every record, skipping and parsing (from copies of the
@@ -1021,6 +1124,12 @@ func exec(ops []string, o *vu.Out) {
 					} else {
 						res = execSkipAll(b, o)
 					}
+				}
+			}
+		case "walk":
+			if len(t) == 3 && strings.Trim(t[2], "pshk") == "" || len(t) == 3 && t[2] == "-" {
+				if b, ok := vu.ParseHex(t[1]); ok {
+					res = execWalk(b, t[2], o)
 				}
 			}
 		case "uname", "sname":
